@@ -46,6 +46,10 @@ CLAIMS = {
                      'operation outcomes (ok/error/no crash) equal the model; all histories of 3 (quick) / 4 (thorough) operations over a 13-operation catalogue after a cache-warming prefix are enumerated exhaustively, '
                      'long random walks and seeded random histories over a larger universe are sampled.', ref='6/C15',
                 note='Trusted: TLC, Json module, EngineModel.tla as the reading of "current objects"; hook VerifSnapshot (read-only) for cache statistics and the order of sortedAdminNetpols. LRU eviction and goroutine-concurrent use are out of scope.'),
+    'C18': dict(cat='exploration', tech='configuration space enumerated exhaustively by TLC (CliSpace.tla); each configuration run through the built k8snetpolicy binary and through the library calls named in the property; outcomes validated by TLC (CliTrace.tla)',
+                text='For every configuration (command x -o format incl. invalid and absent x --exposure x --focusworkload x --fail x -q/-v x -f x directory kinds good/junk/severe/fatal/empty/ingress/admin/missing [x second directory]) on seeded directory sets: '
+                     'stdout hash = hash of the library string, -f file = stdout, exit status != 0 <=> library error, ConnlistFromResourceInfos(scanned infos) = ConnlistFromDirPath. Exhaustive over the enumerated flag space; directories are samples.', ref='6/C18',
+                note='Both sides of every comparison are real code; the specification supplies the configuration space and the acceptance relation. Directory contents are seeded samples of each kind.'),
     'C19': dict(tech='finite conflict space enumerated exhaustively by TLC (Conflict.tla), materialised and run through list and diff (dir1/dir2), outcomes validated by TLC (ConflictTrace.tla); design argument for detection inside the sort callback model-checked (SortConflict.tla)',
                 text='Every case of the enumerated space (8 conflict kinds x sizes x document positions of the conflicting resources x 5 arrangement families of the other priorities, plus control cases without conflict) must be rejected by list and by diff (either side) '
                      'with an error of the right class that names a conflicting resource, a fatal entry and no report; controls must pass. Exhaustive over the enumerated space only.', ref='6/C19',
